@@ -240,6 +240,46 @@ fn probe(kind: &str, n: usize) -> String {
     }
 }
 
+/// a note `t` with exactly `n` block references and `n` inline links pointing at it, all from one note or spread
+/// over `n` notes: every query handler on every note
+fn count_ladder(n: usize, spread: bool) -> Option<String> {
+    let mut lib = act::Lib::new();
+    lib.insert("t".to_string(), "# Target\n\ntext\n".to_string());
+    let mut one = String::from("# One\n");
+    for i in 0..n {
+        if spread {
+            lib.insert(format!("m{}", i), format!("# Many {}\n\n[t](t)\n\nsee [t](t) here\n", i));
+        } else {
+            one.push_str(&format!("\n[t](t)\n\nsee [t](t) {}\n", i));
+        }
+    }
+    lib.insert("one".to_string(), one);
+    let server = match dump::catch(|| act::server(&lib, "", true)) {
+        Ok(s) => s,
+        Err(e) => return Some(format!("server start panics with {} references to one note: {}", n, e.chars().take(200).collect::<String>())),
+    };
+    for k in ["t", "one", "m0"] {
+        if !lib.contains_key(k) {
+            continue;
+        }
+        let td = TextDocumentIdentifier { uri: act::uri(k) };
+        let r: Vec<(&str, Result<(), String>)> = vec![
+            ("inlay hints", dump::catch(|| { server.handle_inlay_hints(InlayHintParams { text_document: td.clone(), range: Range::default(), work_done_progress_params: Default::default() }); })),
+            ("references", dump::catch(|| { server.handle_references(ReferenceParams { text_document_position: TextDocumentPositionParams { text_document: td.clone(), position: Position::new(0, 0) }, work_done_progress_params: Default::default(), partial_result_params: Default::default(), context: ReferenceContext { include_declaration: false } }); })),
+            ("document symbols", dump::catch(|| { server.handle_document_symbols(DocumentSymbolParams { text_document: td.clone(), work_done_progress_params: Default::default(), partial_result_params: Default::default() }); })),
+            ("workspace symbols", dump::catch(|| { server.handle_workspace_symbols(WorkspaceSymbolParams { query: String::new(), ..Default::default() }); })),
+            ("formatting", dump::catch(|| { server.handle_document_formatting(DocumentFormattingParams { text_document: td.clone(), options: FormattingOptions::default(), work_done_progress_params: Default::default() }); })),
+            ("completion", dump::catch(|| { server.handle_completion(CompletionParams { text_document_position: TextDocumentPositionParams { text_document: td.clone(), position: Position::new(0, 0) }, work_done_progress_params: Default::default(), partial_result_params: Default::default(), context: None }); })),
+        ];
+        for (what, res) in r {
+            if let Err(e) = res {
+                return Some(format!("{} on note {:?} panics with exactly {} references to one note: {}", what, k, n, e.chars().take(200).collect::<String>()));
+            }
+        }
+    }
+    None
+}
+
 pub fn reader_correspondence(model: &mut Model, rep: &mut Report, text: &str) {
     match crate::events::compare_reader(model, text) {
         None => rep.count("reader_corr_skipped_unmodelled_constructor"),
@@ -384,7 +424,7 @@ pub fn run(ctx: &Ctx, model: &mut Model, rep: &mut Report) {
             Err(e) => rep.fail(json!({"kind": "hang", "text": text, "what": e})),
         }
     }
-    for t in ["", "\n", "   ", "\r\n\r\n", "\u{feff}# bom\n", "---\n", "---\n---\n", "- \n", "> \n", "|\n", "#\n", "[", "]()", "[]()", "![]()", "``", "```", "<", "&#;", "\\", "a\\\nb", "\t- x", "1.\n2.\n"] {
+    for t in ["> ---\n> a: b\n> ---\n", "- x\n\n  ---\n  t: 1\n  ---\n\n  y\n", "para\n\n---\nk: v\n---\n\ntail\n", "", "\n", "   ", "\r\n\r\n", "\u{feff}# bom\n", "---\n", "---\n---\n", "- \n", "> \n", "|\n", "#\n", "[", "]()", "[]()", "![]()", "``", "```", "<", "&#;", "\\", "a\\\nb", "\t- x", "1.\n2.\n"] {
         rep.case(t, false);
         match exercise_with_deadline(t) {
             Ok(None) => {}
@@ -395,6 +435,17 @@ pub fn run(ctx: &Ctx, model: &mut Model, rep: &mut Report) {
                 rep.fail(json!({"kind": "panic", "text": t, "what": format!("{} panics: {}", op, msg.chars().take(300).collect::<String>())}));
             }
             Err(e) => rep.fail(json!({"kind": "hang", "text": t, "what": e})),
+        }
+    }
+    // count ladder: exactly n references to one note, around every place where a count is formatted or cut off
+    // (one / two digits, the 100-result limit): no handler may panic
+    for n in [0usize, 1, 2, 9, 10, 11, 12, 99, 100, 101] {
+        rep.evaluations += 1;
+        rep.count("count_ladder");
+        for spread in [false, true] {
+            if let Some(what) = count_ladder(n, spread) {
+                rep.fail(json!({"kind": "count", "n": n, "spread": spread, "what": what}));
+            }
         }
     }
     // size ladder (subprocesses): below the recorded thresholds of finding D18 nothing may abort
